@@ -132,6 +132,18 @@ func (s *SimStore) read(lc linking.LinkContext, l datamodel.Link) (io.Reader, er
 		s.w.Fault("store-read-panic")
 		s.w.Effect("store %s read %s -> PANIC", s.node, shortCid(c))
 		panic(fmt.Sprintf("sim: injected panic in storage read of %s", shortCid(c)))
+	case "short", "torn":
+		// the stream opens, yields the first half of the block and then fails: a short read
+		// (io.ErrUnexpectedEOF) or an I/O error in mid-stream
+		if b, ok := s.Get(c); ok && len(b) > 1 {
+			s.w.Fault("store-read-" + o)
+			s.w.Effect("store %s read %s -> %d of %d bytes, then fails (%s)", s.node, shortCid(c), len(b)/2, len(b), o)
+			err := io.ErrUnexpectedEOF
+			if o == "torn" {
+				err = errors.New("sim: I/O error in mid-stream")
+			}
+			return &failingReader{data: b[:len(b)/2], err: err}, nil
+		}
 	}
 	if s.OnRead != nil {
 		s.OnRead(c)
@@ -145,6 +157,21 @@ func (s *SimStore) read(lc linking.LinkContext, l datamodel.Link) (io.Reader, er
 		return nil, notFound{c}
 	}
 	return bytes.NewReader(b), nil
+}
+
+// failingReader yields its data and then the error (it has no Bytes method: callers must read it).
+type failingReader struct {
+	data []byte
+	err  error
+}
+
+func (r *failingReader) Read(p []byte) (int, error) {
+	if len(r.data) == 0 {
+		return 0, r.err
+	}
+	n := copy(p, r.data)
+	r.data = r.data[n:]
+	return n, nil
 }
 
 type notFound struct{ c cid.Cid }
